@@ -197,9 +197,153 @@ fn run_small(input: &Value) -> Option<Case> {
     None
 }
 
+/// a sink that takes `left` bytes in all and then fails every write
+struct LimitWriter {
+    buf: Vec<u8>,
+    left: Option<usize>,
+}
+
+impl std::io::Write for LimitWriter {
+    fn write(&mut self, data: &[u8]) -> std::io::Result<usize> {
+        match self.left {
+            None => {
+                self.buf.extend_from_slice(data);
+                Ok(data.len())
+            }
+            Some(0) => Err(std::io::Error::other("sink is full")),
+            Some(left) => {
+                let n = left.min(data.len());
+                self.buf.extend_from_slice(&data[..n]);
+                self.left = Some(left - n);
+                Ok(n)
+            }
+        }
+    }
+    fn flush(&mut self) -> std::io::Result<()> {
+        Ok(())
+    }
+}
+
+fn coq_images(built: &[(Image, Expected)], cids: &[usize]) -> String {
+    clist(built.iter().zip(cids).map(|((img, _), cid)| {
+        let sh = img.shape();
+        let data = clist(img.data().iter().map(|c| {
+            let [r, g, b, a] = surf_n_term::Color::to_rgba(*c);
+            format!("({},{},{},{})", r, g, b, a)
+        }));
+        format!(
+            "(mkImage {} (mkShape {} {} {} {} {} {}), {}, {}%nat)",
+            data, sh.start, sh.end, sh.width, sh.height, sh.row_stride, sh.col_stride, Surface::hash(img), cid
+        )
+    }))
+}
+
+fn content_table(built: &[(Image, Expected)]) -> (Vec<Expected>, Vec<usize>) {
+    let mut contents: Vec<Expected> = vec![];
+    let mut cids = vec![];
+    for (_, c) in built {
+        let k = match contents.iter().position(|x| x == c) {
+            Some(k) => k,
+            None => {
+                contents.push(c.clone());
+                contents.len() - 1
+            }
+        };
+        cids.push(k);
+    }
+    (contents, cids)
+}
+
+/// histories of draw / erase calls in which some draws write into a sink that gives out after `budget` bytes
+/// (`"failing": true`): what was written, what was returned, and the handler goes on being used
+fn run_failing(input: &Value) -> Case {
+    let quiet = input["quiet"].as_bool().unwrap_or(false);
+    let descs: Vec<Value> = input["images"].as_array().cloned().unwrap_or_default();
+    let built = build_all(&descs);
+    let (contents, cids) = content_table(&built);
+    let ops: Vec<Value> = input["ops"].as_array().cloned().unwrap_or_default();
+    let mut handler = if quiet { KittyImageHandler::new().quiet() } else { KittyImageHandler::new() };
+    let mut coq_ops = vec![];
+    let mut impl_out: Vec<(Vec<u8>, u8)> = vec![];
+    let (mut n_fail, mut n_draw_after_fail) = (0, 0);
+    let mut stopped = false;
+    for o in &ops {
+        if built.is_empty() {
+            break;
+        }
+        let k = o["img"].as_u64().unwrap_or(0) as usize % built.len();
+        let img = built[k].0.clone();
+        let (coq, res) = match o["op"].as_str().unwrap_or("") {
+            "draw" => {
+                let p = vpos(&o["pos"]).unwrap_or((0, 0));
+                let budget = o["budget"].as_u64();
+                let r = if stopped {
+                    None
+                } else {
+                    let hd = std::panic::AssertUnwindSafe(&mut handler);
+                    catch(move || {
+                        let hd = hd;
+                        let mut out = LimitWriter { buf: vec![], left: budget.map(|b| b as usize) };
+                        let r = hd.0.draw(&mut out, &img, Position::new(p.0, p.1));
+                        (out.buf, if r.is_ok() { 0u8 } else { 2u8 })
+                    })
+                };
+                if let Some((_, 2)) = r {
+                    n_fail += 1;
+                } else if n_fail > 0 {
+                    n_draw_after_fail += 1;
+                }
+                (format!("FDraw {}%nat {} {}", k, cpos(p), copt(budget.map(|b| b.to_string()))), r)
+            }
+            "erase" => {
+                let p = vpos(&o["pos"]);
+                let r = if stopped {
+                    None
+                } else {
+                    let hd = std::panic::AssertUnwindSafe(&mut handler);
+                    catch(move || {
+                        let hd = hd;
+                        let mut out = Vec::new();
+                        let r = hd.0.erase(&mut out, &img, p.map(|p| Position::new(p.0, p.1)));
+                        (out, if r.is_ok() { 0u8 } else { 2u8 })
+                    })
+                };
+                (format!("FErase {}%nat {}", k, copt(p.map(cpos))), r)
+            }
+            _ => continue,
+        };
+        coq_ops.push(coq);
+        match res {
+            Some(r) => impl_out.push(r),
+            None => {
+                stopped = true;
+                impl_out.push((vec![], 9));
+            }
+        }
+    }
+    let contents_coq = clist(contents.iter().map(|(w, h, px)| {
+        format!("(mkContent {} {} {})", w, h, cbytes(&px.iter().flatten().copied().collect::<Vec<u8>>()))
+    }));
+    let impl_coq = clist(impl_out.iter().map(|(b, r)| format!("({}, {})", cbytes(b), r)));
+    let mut j = input.clone();
+    j["impl"] = Value::Array(impl_out.iter().map(|(b, r)| json!({"bytes": String::from_utf8_lossy(b), "ret": r})).collect());
+    Case {
+        coq: format!("CaseFail {} {} {} {} {}", cbool(quiet), coq_images(&built, &cids), contents_coq, clist(coq_ops.into_iter()), impl_coq),
+        json: j,
+        tags: vec![
+            format!("failing-sink=failed-draws:{}", match n_fail { 0 => "0", 1 => "1", _ => "2+" }),
+            format!("failing-sink=draw-after-failure:{}", n_draw_after_fail > 0),
+        ],
+        nontrivial: n_fail > 0 && n_draw_after_fail > 0,
+    }
+}
+
 pub fn run(input: &Value) -> Case {
     if let Some(c) = run_small(input) {
         return c;
+    }
+    if input["failing"].as_bool().unwrap_or(false) {
+        return run_failing(input);
     }
     let quiet = input["quiet"].as_bool().unwrap_or(false);
     let descs: Vec<Value> = input["images"].as_array().cloned().unwrap_or_default();
@@ -567,6 +711,50 @@ fn img_desc(rng: &mut Rng, big: u8) -> Value {
     d
 }
 
+/// total number of bytes a first draw of the image writes, and how many of them are the transmission
+fn draw_lengths(d: &Value) -> (usize, usize) {
+    let (img, _) = build(d);
+    let mut h = KittyImageHandler::new();
+    let mut first = Vec::new();
+    let _ = h.draw(&mut first, &img, Position::new(0, 0));
+    let mut second = Vec::new();
+    let _ = h.draw(&mut second, &img, Position::new(0, 0));
+    (first.len(), first.len().saturating_sub(second.len()))
+}
+
+/// a draw into a sink that gives out (at a place aimed at the command boundaries), then the same content again
+/// with a working sink, mixed with draws of another image and erases
+fn failing_history(rng: &mut Rng, d: Value, budget: Option<u64>) -> Value {
+    let (total, tx) = draw_lengths(&d);
+    let b = budget.unwrap_or_else(|| {
+        let c = [0, 1, 20, tx / 2, tx.saturating_sub(1), tx, tx + 1, (tx + total) / 2, total.saturating_sub(1), total, total + 3,
+                 4096, 4097, 4130, 4140];
+        match rng.below(4) {
+            0 => rng.below(total as u64 + 2),
+            _ => *rng.pick(&c) as u64,
+        }
+    });
+    let other = json!({"h": 1 + rng.below(3), "w": 1 + rng.below(3), "seed": rng.below(1000), "style": 0});
+    let mut ops = vec![];
+    if rng.chance(1, 3) {
+        ops.push(json!({"op":"draw","img":1,"pos":[1,1]}));
+    }
+    ops.push(json!({"op":"draw","img":0,"pos":[2,3],"budget":b}));
+    if rng.chance(1, 3) {
+        ops.push(json!({"op":"erase","img":0,"pos":[2,3]}));
+    }
+    if rng.chance(1, 3) {
+        ops.push(json!({"op":"draw","img":1,"pos":[4,4],"budget":rng.below(60)}));
+    }
+    ops.push(json!({"op":"draw","img":0,"pos":[2,3]}));
+    if rng.chance(1, 2) {
+        ops.push(json!({"op":"draw","img":0,"pos":[5,6],"budget":rng.below(total as u64 + 2)}));
+        ops.push(json!({"op":"draw","img":0,"pos":[5,6]}));
+    }
+    ops.push(json!({"op":"erase","img":0,"pos":[2,3]}));
+    json!({"failing": true, "quiet": rng.chance(1, 2), "images": [d, other], "ops": ops})
+}
+
 /// Two different contents whose hash-derived image ids coincide (Surface::hash equal modulo the size
 /// of the id space): the id a fresh handler gives each of them is the same.  The pair found in review
 /// round 1 is tried first and re-verified against this build of the crate; when it no longer collides
@@ -705,6 +893,11 @@ fn gen_history(rng: &mut Rng, big: u8, pairs: &[(Value, Value)]) -> Value {
         let (a, b) = rng.pick(pairs).clone();
         images = if rng.chance(1, 2) { vec![a, b] } else { vec![b, a] };
         nimg = 2 + rng.below(2) as usize;
+    }
+    if big == 0 && !colliding && rng.chance(1, 10) {
+        // one history in ten (of the small ones) has sinks that fail
+        let d = if rng.chance(1, 12) { json!({"h":35,"w":30,"seed":rng.below(1000),"style":0}) } else { img_desc(rng, 0) };
+        return failing_history(rng, d, None);
     }
     let shared = big == 0 && !colliding && rng.chance(1, 4);
     if shared {
@@ -864,6 +1057,14 @@ pub fn generate(rng: &mut Rng, n: usize, tier: &str) -> Vec<Value> {
                    {"op":"draw","img":0,"pos":[5,7]},{"op":"erase","img":0,"pos":[5,7]}]}));
     }
     v.extend(shared_buffer_histories());
+    // sinks that fail: during the transmission, exactly after it, inside the placement command, not at all
+    {
+        let small = json!({"h":2,"w":3,"seed":23,"style":0});
+        let (total, tx) = draw_lengths(&small);
+        for b in [0, 10, tx.saturating_sub(1), tx, tx + 1, total.saturating_sub(1), total] {
+            v.push(failing_history(rng, small.clone(), Some(b as u64)));
+        }
+    }
     // two contents with one derived image id (the known pair re-verified on this build, and a pair found
     // by a birthday search seeded by the run): id table and transmitted set of the handler differ
     let mut pairs: Vec<(Value, Value)> = vec![];
